@@ -878,7 +878,7 @@ zap_links(vbi_page *pg, int row)
 	vbi_link ld;
 	vbi_char *acp;
 	vbi_bool link[43];
-	int i, j, n, b;
+	int i, j, n, b, len;
 
 	acp = &pg->text[row * EXT_COLUMNS];
 
@@ -894,7 +894,13 @@ zap_links(vbi_page *pg, int row)
 	buffer[j + 1] = ' ';
 	buffer[j + 2] = 0;
 
-	for (i = 0; i < COLUMNS; i += n) { 
+	/* Only j characters were stored, fewer than COLUMNS when the
+	   row contains double width or double size characters. */
+	len = j;
+
+	CLEAR (link);
+
+	for (i = 0; i < len; i += n) { 
 		n = keyword(&ld, buffer, i + 1,
 			pg->pgno, pg->subno, &b);
 
